@@ -1,4 +1,7 @@
-use super::{CompleteIo, IoCommand, IoKind, IoKindResult, IoPacket, PagePool, PAGE_SIZE};
+use super::{
+    short_io_error, CompleteIo, IoCommand, IoKind, IoKindResult, IoPacket, PagePool,
+    MAX_IO_ATTEMPTS, PAGE_SIZE,
+};
 use crossbeam_channel::{Receiver, Sender};
 use threadpool::ThreadPool;
 
@@ -46,6 +49,7 @@ fn spawn_worker_thread(
 }
 
 fn execute(mut command: IoCommand) -> CompleteIo {
+    let mut attempts = 0;
     let result = loop {
         let res = match command.kind {
             IoKind::Read(fd, page_index, ref mut page) => unsafe {
@@ -85,7 +89,13 @@ fn execute(mut command: IoCommand) -> CompleteIo {
         match command.kind.get_result(res) {
             IoKindResult::Ok => break Ok(()),
             IoKindResult::Err => break Err(std::io::Error::last_os_error()),
-            IoKindResult::Retry => (),
+            IoKindResult::Retry => {
+                attempts += 1;
+                if attempts >= MAX_IO_ATTEMPTS {
+                    // never making progress: report it instead of reissuing it forever.
+                    break Err(short_io_error());
+                }
+            }
         }
     };
 
